@@ -361,6 +361,11 @@ impl<'a> Lifter<'a> {
                 let synth: syn::Expr = syn::parse_str(&format!("|x__| x__.{}()", segs[1])).map_err(|e| e.to_string())?;
                 return self.closure1(&synth, arg_ty);
             }
+            // `T::from` as a function value where T is lifted to the argument's own type: the identity
+            if segs.len() == 2 && segs[1] == "from" && self.reg.types.get(&segs[0]).map(|t| t == arg_ty).unwrap_or(false) {
+                let synth: syn::Expr = syn::parse_str("|x__| x__").map_err(|e| e.to_string())?;
+                return self.closure1(&synth, arg_ty);
+            }
         }
         let syn::Expr::Closure(cl) = c else { return unsupported("expected closure", c) };
         if cl.inputs.len() != 1 {
